@@ -1034,13 +1034,13 @@ CLAIMS += [
           "f64_from_parts (default build) never returns infinity or NaN: every Ok path has a finite result; the "
           "scaling loop keeps f finite and non-negative; the compiled POW10 table equals the correctly rounded powers "
           "of ten bit for bit",
-          "all (sign, u64 significand, i32 exponent > i32::MIN+400); real IEEE semantics in z3", configs=("fast",), also=("C03",)),
+          "all (sign, u64 significand, i32 exponent > i32::MIN+400); real IEEE semantics in z3", configs=("fast",), also=("C03", "C01", "C13")),
     Claim("c05_ieee_axioms", "C05", "quick", claim_ieee_axioms,
           "the IEEE single-operation facts used as axioms hold (decided at half precision)", "binary16, RNE", configs=("fast",)),
     Claim("c05_f64_fast_exact", "C05", "quick", claim_f64_fast_exact,
           "for significand <= 2^53 and |exponent| <= 22 the result is exactly one IEEE multiplication or division of "
           "the exactly converted significand by the exact table entry, sign applied, never an error",
-          "all sig <= 2^53, -22 <= exp <= 22, both signs", configs=("fast",)),
+          "all sig <= 2^53, -22 <= exp <= 22, both signs", configs=("fast",), also=("C01", "C13", "C04")),
 ]
 
 
@@ -1097,7 +1097,7 @@ CLAIMS += [
     Claim("c05_f64_std", "C05", "quick", claim_f64_std,
           "f64_from_parts (build without fast-float-parsing): the text given to str::parse::<f64> is exactly "
           "<significand>e<exponent>, the sign is applied to the result, and an infinite result is rejected",
-          "all (sign, u64, i32)", configs=("nofast",)),
+          "all (sign, u64, i32)", configs=("nofast",), also=("C01", "C13")),
 ]
 
 
